@@ -127,10 +127,9 @@ Accept ==
     [] op \in IntOps -> Check(Ev.ok /\ Ev.r = IntRef(op, Ev.a, Ev.b, Ev.k), op)
     [] op \in BitOps ->
          LET want == Val(BitRef(op, WordOfBig(Ev.a), WordOfBig(Ev.b), Ev.n)) IN
-         IF op \in ShiftOps /\ Ev.n >= 32
-         THEN /\ Check(Ev.ok /\ InWord(Ev.r), op)
-              /\ (Ev.ok /\ InWord(Ev.r) /\ Ev.r # want) => Drift(op)
-         ELSE Check(Ev.ok /\ Ev.r = want, op)
+         \* (shift counts >= 32 included: every bit is shifted out, the
+         \* mathematical result - Bits32 - is the word 0)
+         Check(Ev.ok /\ Ev.r = want, op)
     [] OTHER -> Bad("unknown-op")
 
 Step ==
